@@ -75,7 +75,8 @@ impl<'a> Pretty<'a, Formatter<'a>> for Value {
             | Value::Triv(value) => value.pretty(f),
             | Value::VCons(value) => value.pretty(f),
             | Value::Proj(Proj(head, position)) => {
-                RcDoc::concat([head.pretty(f), RcDoc::text(format!("[{position}]"))])
+                let suffix = if position.last { ".." } else { "" };
+                RcDoc::concat([head.pretty(f), RcDoc::text(format!("[{}{suffix}]", position.index))])
             }
             | Value::Lit(lit) => lit.pretty(f),
             | Value::SemValue(sem) => RcDoc::text(format!("{:?}", sem)),
